@@ -1,1 +1,671 @@
-//! (stub)
+//! Reference model for range and location lists (C08), written from the DWARF standard
+//! (DWARF 2-4 section 2.17.3 / 2.6.2 for `.debug_ranges` / `.debug_loc`, DWARF 5 sections
+//! 2.17.3, 2.6.2, 7.7.3, 7.25, 7.27, 7.28, 7.29 for `.debug_rnglists` / `.debug_loclists` /
+//! `.debug_addr`, the GNU DebugFission proposal for `.debug_loc.dwo`) and DESIGN.md
+//! Appendix A.7.  Nothing here calls into gimli.
+//!
+//! Pinned choices (the standard is silent; listed in C08's `assumptions`):
+//!  * sums (`base + offset`, `begin + length`) wrap to the address size;
+//!  * the filter: an entry is dropped when `begin >= 2^(8*size) - 2` (tombstone), when
+//!    `begin >= end`, and (offset pairs only) when the running base is `>= 2^(8*size) - 2`;
+//!  * `DW_LLE_default_location` is reported with the range `[0, 2^64 - 1)`;
+//!  * a list that runs into the end of its section exactly at an entry boundary just ends.
+
+/// DW_RLE_* / DW_LLE_* codes (DWARF 5 tables 7.10 and 7.25).
+pub const RLE_END_OF_LIST: u8 = 0;
+pub const RLE_BASE_ADDRESSX: u8 = 1;
+pub const RLE_STARTX_ENDX: u8 = 2;
+pub const RLE_STARTX_LENGTH: u8 = 3;
+pub const RLE_OFFSET_PAIR: u8 = 4;
+pub const RLE_BASE_ADDRESS: u8 = 5;
+pub const RLE_START_END: u8 = 6;
+pub const RLE_START_LENGTH: u8 = 7;
+
+pub const LLE_END_OF_LIST: u8 = 0;
+pub const LLE_BASE_ADDRESSX: u8 = 1;
+pub const LLE_STARTX_ENDX: u8 = 2;
+pub const LLE_STARTX_LENGTH: u8 = 3;
+pub const LLE_OFFSET_PAIR: u8 = 4;
+pub const LLE_DEFAULT_LOCATION: u8 = 5;
+pub const LLE_BASE_ADDRESS: u8 = 6;
+pub const LLE_START_END: u8 = 7;
+pub const LLE_START_LENGTH: u8 = 8;
+
+/// How a list is encoded.
+#[derive(Clone, Copy, Debug, PartialEq, Eq, Hash)]
+pub enum Flavor {
+    /// `.debug_ranges`: pairs of addresses.
+    Ranges,
+    /// `.debug_loc`: pairs of addresses + u16 length + expression.
+    Loc,
+    /// `.debug_rnglists`: DW_RLE_*.
+    Rle,
+    /// `.debug_loclists`: DW_LLE_* with ULEB128 expression length.
+    Lle,
+    /// GNU split DWARF `.debug_loc.dwo` (version <= 4): DW_LLE_* numbering with a u16
+    /// expression length and a u32 length operand in startx_length.
+    GnuLle,
+}
+
+impl Flavor {
+    pub fn is_loc(self) -> bool {
+        matches!(self, Flavor::Loc | Flavor::Lle | Flavor::GnuLle)
+    }
+    pub fn is_legacy(self) -> bool {
+        matches!(self, Flavor::Ranges | Flavor::Loc)
+    }
+    pub fn name(self) -> &'static str {
+        match self {
+            Flavor::Ranges => "ranges",
+            Flavor::Loc => "loc",
+            Flavor::Rle => "rle",
+            Flavor::Lle => "lle",
+            Flavor::GnuLle => "gnulle",
+        }
+    }
+}
+
+/// One encoded list entry (everything but the end-of-list entry).  Location entries carry
+/// the expression bytes in `data`; range entries have `None`.
+#[derive(Clone, Debug, PartialEq, Eq, Hash)]
+pub enum Item {
+    /// legacy pair that is neither (0,0) nor a base selection
+    Pair(u64, u64, Option<Vec<u8>>),
+    /// base address given as an address (legacy (all-ones, addr) or DW_*_base_address)
+    Base(u64),
+    /// DW_*_base_addressx
+    Basex(u64),
+    StartxEndx(u64, u64, Option<Vec<u8>>),
+    StartxLength(u64, u64, Option<Vec<u8>>),
+    OffsetPair(u64, u64, Option<Vec<u8>>),
+    Default(Vec<u8>),
+    StartEnd(u64, u64, Option<Vec<u8>>),
+    StartLength(u64, u64, Option<Vec<u8>>),
+}
+
+impl Item {
+    pub fn kind(&self) -> &'static str {
+        match self {
+            Item::Pair(..) => "pair",
+            Item::Base(..) => "base_address",
+            Item::Basex(..) => "base_addressx",
+            Item::StartxEndx(..) => "startx_endx",
+            Item::StartxLength(..) => "startx_length",
+            Item::OffsetPair(..) => "offset_pair",
+            Item::Default(..) => "default_location",
+            Item::StartEnd(..) => "start_end",
+            Item::StartLength(..) => "start_length",
+        }
+    }
+    pub fn data(&self) -> Option<&Vec<u8>> {
+        match self {
+            Item::Pair(_, _, d)
+            | Item::StartxEndx(_, _, d)
+            | Item::StartxLength(_, _, d)
+            | Item::OffsetPair(_, _, d)
+            | Item::StartEnd(_, _, d)
+            | Item::StartLength(_, _, d) => d.as_ref(),
+            Item::Default(d) => Some(d),
+            _ => None,
+        }
+    }
+}
+
+pub fn addr_mask(size: u8) -> u64 {
+    if size >= 8 {
+        u64::MAX
+    } else {
+        (1u64 << (8 * size as u32)) - 1
+    }
+}
+
+/// Smallest tombstone address: 2^(8*size) - 2.
+pub fn tombstone(size: u8) -> u64 {
+    addr_mask(size).wrapping_sub(1)
+}
+
+fn rd_uint(b: &[u8], le: bool, n: usize) -> u64 {
+    let mut v = 0u64;
+    for i in 0..n {
+        let byte = if le { b[n - 1 - i] } else { b[i] };
+        v = (v << 8) | byte as u64;
+    }
+    v
+}
+
+/// Why decoding of a list stopped.
+#[derive(Clone, Copy, Debug, PartialEq, Eq)]
+pub enum End {
+    /// an end-of-list entry was decoded
+    EndOfList,
+    /// the section ended exactly at an entry boundary (no end-of-list entry)
+    Exhausted,
+    /// the section ended inside an entry
+    Truncated,
+    /// an entry kind the standard does not define
+    UnknownKind(u8),
+    /// a ULEB128 operand of at most 10 bytes whose value does not fit 64 bits
+    BadLeb,
+    /// a ULEB128 operand longer than the canonical maximum: acceptance is not fixed
+    Ambiguous,
+}
+
+impl End {
+    pub fn is_clean(self) -> bool {
+        matches!(self, End::EndOfList | End::Exhausted)
+    }
+    /// the reader must report an error (or at least must not yield another entry)
+    pub fn is_error(self) -> bool {
+        matches!(self, End::Truncated | End::UnknownKind(_) | End::BadLeb)
+    }
+}
+
+#[derive(Clone, Debug, PartialEq, Eq)]
+pub struct Decoded {
+    pub items: Vec<Item>,
+    pub end: End,
+    /// bytes consumed, including the end-of-list entry when there is one
+    pub consumed: usize,
+}
+
+struct Cur<'a> {
+    b: &'a [u8],
+    pos: usize,
+    le: bool,
+}
+
+enum Stop {
+    Trunc,
+    BadLeb,
+    Ambiguous,
+}
+
+impl<'a> Cur<'a> {
+    fn left(&self) -> usize {
+        self.b.len() - self.pos
+    }
+    fn uint(&mut self, n: usize) -> Result<u64, Stop> {
+        if self.left() < n {
+            return Err(Stop::Trunc);
+        }
+        let v = rd_uint(&self.b[self.pos..], self.le, n);
+        self.pos += n;
+        Ok(v)
+    }
+    fn uleb(&mut self) -> Result<u64, Stop> {
+        let mut v: u128 = 0;
+        let mut i = 0usize;
+        loop {
+            if self.pos + i >= self.b.len() {
+                // no terminator: over-long streams of continuation bytes are ambiguous
+                // (an error either way, but which one is not fixed); plain truncation otherwise
+                return Err(if i >= 10 { Stop::Ambiguous } else { Stop::Trunc });
+            }
+            let x = self.b[self.pos + i];
+            if i < 18 {
+                v |= ((x & 0x7f) as u128) << (7 * i as u32);
+            } else if x & 0x7f != 0 {
+                v = u128::MAX;
+            }
+            i += 1;
+            if x & 0x80 == 0 {
+                break;
+            }
+        }
+        if i > 10 {
+            return Err(Stop::Ambiguous);
+        }
+        if v > u64::MAX as u128 {
+            return Err(Stop::BadLeb);
+        }
+        self.pos += i;
+        Ok(v as u64)
+    }
+    fn data(&mut self, len: u64) -> Result<Vec<u8>, Stop> {
+        if (self.left() as u64) < len {
+            return Err(Stop::Trunc);
+        }
+        let n = len as usize;
+        let v = self.b[self.pos..self.pos + n].to_vec();
+        self.pos += n;
+        Ok(v)
+    }
+}
+
+/// Decode the list that starts at `off` in `sec`.  `None` when `off` is beyond the section.
+pub fn decode(sec: &[u8], off: u64, flavor: Flavor, le: bool, addr: u8) -> Option<Decoded> {
+    if off > sec.len() as u64 {
+        return None;
+    }
+    let mut c = Cur { b: sec, pos: off as usize, le };
+    let start = c.pos;
+    let mask = addr_mask(addr);
+    let a = addr as usize;
+    let mut items = vec![];
+    let end;
+    loop {
+        if c.left() == 0 {
+            end = End::Exhausted;
+            break;
+        }
+        let entry_start = c.pos;
+        let r: Result<Option<Item>, Result<Stop, u8>> = (|| {
+            match flavor {
+                Flavor::Ranges | Flavor::Loc => {
+                    let b = c.uint(a).map_err(Ok)?;
+                    let e = c.uint(a).map_err(Ok)?;
+                    if b == 0 && e == 0 {
+                        return Ok(None);
+                    }
+                    if b == mask {
+                        return Ok(Some(Item::Base(e)));
+                    }
+                    if flavor == Flavor::Loc {
+                        let n = c.uint(2).map_err(Ok)?;
+                        let d = c.data(n).map_err(Ok)?;
+                        Ok(Some(Item::Pair(b, e, Some(d))))
+                    } else {
+                        Ok(Some(Item::Pair(b, e, None)))
+                    }
+                }
+                Flavor::Rle => {
+                    let k = c.uint(1).map_err(Ok)? as u8;
+                    match k {
+                        RLE_END_OF_LIST => Ok(None),
+                        RLE_BASE_ADDRESSX => Ok(Some(Item::Basex(c.uleb().map_err(Ok)?))),
+                        RLE_STARTX_ENDX => {
+                            let b = c.uleb().map_err(Ok)?;
+                            let e = c.uleb().map_err(Ok)?;
+                            Ok(Some(Item::StartxEndx(b, e, None)))
+                        }
+                        RLE_STARTX_LENGTH => {
+                            let b = c.uleb().map_err(Ok)?;
+                            let l = c.uleb().map_err(Ok)?;
+                            Ok(Some(Item::StartxLength(b, l, None)))
+                        }
+                        RLE_OFFSET_PAIR => {
+                            let b = c.uleb().map_err(Ok)?;
+                            let e = c.uleb().map_err(Ok)?;
+                            Ok(Some(Item::OffsetPair(b, e, None)))
+                        }
+                        RLE_BASE_ADDRESS => Ok(Some(Item::Base(c.uint(a).map_err(Ok)?))),
+                        RLE_START_END => {
+                            let b = c.uint(a).map_err(Ok)?;
+                            let e = c.uint(a).map_err(Ok)?;
+                            Ok(Some(Item::StartEnd(b, e, None)))
+                        }
+                        RLE_START_LENGTH => {
+                            let b = c.uint(a).map_err(Ok)?;
+                            let l = c.uleb().map_err(Ok)?;
+                            Ok(Some(Item::StartLength(b, l, None)))
+                        }
+                        other => Err(Err(other)),
+                    }
+                }
+                Flavor::Lle | Flavor::GnuLle => {
+                    let gnu = flavor == Flavor::GnuLle;
+                    let k = c.uint(1).map_err(Ok)? as u8;
+                    // expression: ULEB128 length (v5) or u16 length (GNU) + bytes
+                    macro_rules! expr {
+                        () => {{
+                            let n = if gnu { c.uint(2).map_err(Ok)? } else { c.uleb().map_err(Ok)? };
+                            c.data(n).map_err(Ok)?
+                        }};
+                    }
+                    match k {
+                        LLE_END_OF_LIST => Ok(None),
+                        LLE_BASE_ADDRESSX => Ok(Some(Item::Basex(c.uleb().map_err(Ok)?))),
+                        LLE_STARTX_ENDX => {
+                            let b = c.uleb().map_err(Ok)?;
+                            let e = c.uleb().map_err(Ok)?;
+                            let d = expr!();
+                            Ok(Some(Item::StartxEndx(b, e, Some(d))))
+                        }
+                        LLE_STARTX_LENGTH => {
+                            let b = c.uleb().map_err(Ok)?;
+                            let l = if gnu { c.uint(4).map_err(Ok)? } else { c.uleb().map_err(Ok)? };
+                            let d = expr!();
+                            Ok(Some(Item::StartxLength(b, l, Some(d))))
+                        }
+                        LLE_OFFSET_PAIR => {
+                            let b = c.uleb().map_err(Ok)?;
+                            let e = c.uleb().map_err(Ok)?;
+                            let d = expr!();
+                            Ok(Some(Item::OffsetPair(b, e, Some(d))))
+                        }
+                        LLE_DEFAULT_LOCATION => {
+                            let d = expr!();
+                            Ok(Some(Item::Default(d)))
+                        }
+                        LLE_BASE_ADDRESS => Ok(Some(Item::Base(c.uint(a).map_err(Ok)?))),
+                        LLE_START_END => {
+                            let b = c.uint(a).map_err(Ok)?;
+                            let e = c.uint(a).map_err(Ok)?;
+                            let d = expr!();
+                            Ok(Some(Item::StartEnd(b, e, Some(d))))
+                        }
+                        LLE_START_LENGTH => {
+                            let b = c.uint(a).map_err(Ok)?;
+                            let l = c.uleb().map_err(Ok)?;
+                            let d = expr!();
+                            Ok(Some(Item::StartLength(b, l, Some(d))))
+                        }
+                        other => Err(Err(other)),
+                    }
+                }
+            }
+        })();
+        match r {
+            Ok(Some(it)) => items.push(it),
+            Ok(None) => {
+                end = End::EndOfList;
+                break;
+            }
+            Err(Ok(Stop::Trunc)) => {
+                c.pos = entry_start;
+                end = End::Truncated;
+                break;
+            }
+            Err(Ok(Stop::BadLeb)) => {
+                c.pos = entry_start;
+                end = End::BadLeb;
+                break;
+            }
+            Err(Ok(Stop::Ambiguous)) => {
+                c.pos = entry_start;
+                end = End::Ambiguous;
+                break;
+            }
+            Err(Err(k)) => {
+                c.pos = entry_start;
+                end = End::UnknownKind(k);
+                break;
+            }
+        }
+    }
+    Some(Decoded { items, end, consumed: c.pos - start })
+}
+
+// ---------------------------------------------------------------- address table
+
+/// `.debug_addr[addr_base + index * address_size]`, `None` when that slot is not inside the
+/// section (or the arithmetic leaves 64 bits).
+pub fn lookup_addr(debug_addr: &[u8], le: bool, size: u8, addr_base: u64, index: u64) -> Option<u64> {
+    let off = (addr_base as u128) + (index as u128) * (size as u128);
+    let end = off + size as u128;
+    if end > debug_addr.len() as u128 {
+        return None;
+    }
+    Some(rd_uint(&debug_addr[off as usize..], le, size as usize))
+}
+
+/// Size of the header of a `.debug_rnglists` / `.debug_loclists` / table:
+/// unit_length, version(2), address_size(1), segment_selector_size(1), offset_entry_count(4).
+pub fn lists_header_size(fmt64: bool) -> u64 {
+    (if fmt64 { 12 } else { 4 }) + 2 + 1 + 1 + 4
+}
+
+/// Offset-table lookup for DW_FORM_rnglistx / DW_FORM_loclistx:
+/// `base + table[base + index * word_size]`.
+pub fn table_offset(sec: &[u8], le: bool, fmt64: bool, base: u64, index: u64) -> Option<u64> {
+    let w: u128 = if fmt64 { 8 } else { 4 };
+    let off = base as u128 + index as u128 * w;
+    if off + w > sec.len() as u128 {
+        return None;
+    }
+    let v = rd_uint(&sec[off as usize..], le, w as usize);
+    base.checked_add(v)
+}
+
+/// Base of the offset table when the unit has no DW_AT_rnglists_base / DW_AT_loclists_base:
+/// in a version 5 .dwo file the (only) table starts right after the header; otherwise 0.
+pub fn default_lists_base(version: u16, dwo: bool, fmt64: bool) -> u64 {
+    if version >= 5 && dwo {
+        lists_header_size(fmt64)
+    } else {
+        0
+    }
+}
+
+/// DW_AT_ranges with a section offset: in a GNU split DWARF (version < 5) .dwo unit the
+/// offset is relative to DW_AT_GNU_ranges_base; otherwise it is the section offset.
+pub fn ranges_offset_from_raw(dwo: bool, version: u16, raw: u64, rnglists_base: u64) -> u64 {
+    if dwo && version < 5 {
+        raw.wrapping_add(rnglists_base)
+    } else {
+        raw
+    }
+}
+
+// ---------------------------------------------------------------- resolution
+
+#[derive(Clone, Copy, Debug)]
+pub struct ResolveCtx<'a> {
+    pub addr_size: u8,
+    pub le: bool,
+    /// base address of the unit (DW_AT_low_pc of the unit DIE, 0 when absent)
+    pub base: u64,
+    pub debug_addr: &'a [u8],
+    pub addr_base: u64,
+}
+
+#[derive(Clone, Debug, PartialEq, Eq)]
+pub struct Res {
+    pub begin: u64,
+    pub end: u64,
+    pub data: Option<Vec<u8>>,
+}
+
+/// How the resolved iteration ends.
+#[derive(Clone, Copy, Debug, PartialEq, Eq)]
+pub enum ResEnd {
+    /// all items consumed; what follows is determined by the decode `End`
+    Items,
+    /// `.debug_addr` lookup for item `usize` failed: an error must be reported there
+    AddrLookup(usize),
+}
+
+#[derive(Clone, Debug, Default)]
+pub struct Stats {
+    pub yielded: u64,
+    pub drop_tomb_begin: u64,
+    pub drop_empty: u64,
+    pub drop_inverted: u64,
+    pub drop_tomb_base: u64,
+    pub base_changes: u64,
+    pub addr_lookups: u64,
+    pub wrapped: u64,
+}
+
+#[derive(Clone, Debug)]
+pub struct Resolved {
+    pub out: Vec<Res>,
+    pub end: ResEnd,
+    pub stats: Stats,
+}
+
+pub fn resolve(items: &[Item], cx: &ResolveCtx) -> Resolved {
+    let mask = addr_mask(cx.addr_size);
+    let tomb = tombstone(cx.addr_size);
+    let mut base = cx.base;
+    let mut out = vec![];
+    let mut st = Stats::default();
+    let add = |a: u64, b: u64, st: &mut Stats| -> u64 {
+        let full = a as u128 + b as u128;
+        if full > mask as u128 {
+            st.wrapped += 1;
+        }
+        (full as u64) & mask
+    };
+    for (i, it) in items.iter().enumerate() {
+        let mut look = |idx: u64, st: &mut Stats| -> Option<u64> {
+            st.addr_lookups += 1;
+            lookup_addr(cx.debug_addr, cx.le, cx.addr_size, cx.addr_base, idx)
+        };
+        let (b, e, data): (u64, u64, Option<Vec<u8>>) = match it {
+            Item::Base(a) => {
+                base = *a;
+                st.base_changes += 1;
+                continue;
+            }
+            Item::Basex(idx) => match look(*idx, &mut st) {
+                Some(a) => {
+                    base = a;
+                    st.base_changes += 1;
+                    continue;
+                }
+                None => return Resolved { out, end: ResEnd::AddrLookup(i), stats: st },
+            },
+            Item::StartxEndx(bi, ei, d) => {
+                let Some(b) = look(*bi, &mut st) else {
+                    return Resolved { out, end: ResEnd::AddrLookup(i), stats: st };
+                };
+                let Some(e) = look(*ei, &mut st) else {
+                    return Resolved { out, end: ResEnd::AddrLookup(i), stats: st };
+                };
+                (b, e, d.clone())
+            }
+            Item::StartxLength(bi, len, d) => {
+                let Some(b) = look(*bi, &mut st) else {
+                    return Resolved { out, end: ResEnd::AddrLookup(i), stats: st };
+                };
+                (b, add(b, *len, &mut st), d.clone())
+            }
+            Item::Pair(b, e, d) | Item::OffsetPair(b, e, d) => {
+                if base >= tomb {
+                    st.drop_tomb_base += 1;
+                    continue;
+                }
+                (add(base, *b, &mut st), add(base, *e, &mut st), d.clone())
+            }
+            Item::Default(d) => (0, u64::MAX, Some(d.clone())),
+            Item::StartEnd(b, e, d) => (*b, *e, d.clone()),
+            Item::StartLength(b, len, d) => (*b, add(*b, *len, &mut st), d.clone()),
+        };
+        if b >= tomb {
+            st.drop_tomb_begin += 1;
+            continue;
+        }
+        if b == e {
+            st.drop_empty += 1;
+            continue;
+        }
+        if b > e {
+            st.drop_inverted += 1;
+            continue;
+        }
+        st.yielded += 1;
+        out.push(Res { begin: b, end: e, data });
+    }
+    Resolved { out, end: ResEnd::Items, stats: st }
+}
+
+// ---------------------------------------------------------------- DIE-level ranges
+
+/// An address-class attribute value.
+#[derive(Clone, Copy, Debug, PartialEq, Eq)]
+pub enum AddrVal {
+    Direct(u64),
+    Index(u64),
+}
+
+/// The attributes of a DIE that matter for its ranges, in encoding order.
+#[derive(Clone, Debug, PartialEq, Eq)]
+pub enum DieAttr {
+    LowPc(AddrVal),
+    /// DW_AT_low_pc with a form that is not of class address
+    LowPcBadForm,
+    HighPcAddr(AddrVal),
+    /// DW_AT_high_pc of class constant (data1..8, udata, non-negative sdata): offset from low_pc
+    HighPcOffset(u64),
+    /// DW_AT_high_pc in DW_FORM_sdata with a negative value: no defined meaning
+    HighPcNegative,
+    /// DW_AT_ranges, section-offset class (already through `ranges_offset_from_raw`)
+    RangesOffset(u64),
+    /// DW_AT_ranges, DW_FORM_rnglistx
+    RangesIndex(u64),
+    /// DW_AT_ranges in a form that is neither: ignored
+    RangesOtherForm,
+}
+
+#[derive(Clone, Debug, PartialEq, Eq)]
+pub enum DieRanges {
+    /// the list at this section offset (resolved with the unit's base address)
+    List(u64),
+    /// `[low_pc, high_pc)` as is (not filtered), or nothing
+    Single(Option<(u64, u64)>),
+    /// an error must be reported
+    Error,
+    /// input outside what the standard defines; result not judged
+    Unjudged,
+}
+
+/// `index_to_offset`: resolves a DW_FORM_rnglistx index (None = lookup fails);
+/// `addr`: resolves an address index.
+pub fn die_ranges(
+    attrs: &[DieAttr],
+    addr_size: u8,
+    index_to_offset: &dyn Fn(u64) -> Option<u64>,
+    addr: &dyn Fn(u64) -> Option<u64>,
+) -> DieRanges {
+    let mut low = None;
+    let mut high = None;
+    let mut size = None;
+    let mut unjudged = false;
+    let val = |v: &AddrVal| -> Option<u64> {
+        match v {
+            AddrVal::Direct(a) => Some(*a),
+            AddrVal::Index(i) => addr(*i),
+        }
+    };
+    for a in attrs {
+        match a {
+            DieAttr::LowPc(v) => match val(v) {
+                Some(x) => low = Some(x),
+                None => return DieRanges::Error,
+            },
+            DieAttr::LowPcBadForm => return DieRanges::Error,
+            DieAttr::HighPcAddr(v) => match val(v) {
+                Some(x) => high = Some(x),
+                None => return DieRanges::Error,
+            },
+            DieAttr::HighPcOffset(o) => size = Some(*o),
+            DieAttr::HighPcNegative => unjudged = true,
+            DieAttr::RangesOffset(o) => {
+                return if unjudged { DieRanges::Unjudged } else { DieRanges::List(*o) };
+            }
+            DieAttr::RangesIndex(i) => {
+                if unjudged {
+                    return DieRanges::Unjudged;
+                }
+                return match index_to_offset(*i) {
+                    Some(o) => DieRanges::List(o),
+                    None => DieRanges::Error,
+                };
+            }
+            DieAttr::RangesOtherForm => {}
+        }
+    }
+    if unjudged {
+        return DieRanges::Unjudged;
+    }
+    match low {
+        None => DieRanges::Single(None),
+        Some(b) => match size {
+            Some(s) => {
+                let sum = b as u128 + s as u128;
+                if sum > addr_mask(addr_size) as u128 {
+                    // the end address does not fit the unit's address size
+                    if sum > u64::MAX as u128 {
+                        DieRanges::Error
+                    } else {
+                        DieRanges::Unjudged
+                    }
+                } else {
+                    DieRanges::Single(Some((b, sum as u64)))
+                }
+            }
+            None => DieRanges::Single(high.map(|e| (b, e))),
+        },
+    }
+}
